@@ -27,6 +27,36 @@ CLAIMED = {
   note="Trusted: tick/depth budgets have >= 50x headroom over measured need; a process-killing fault (fatal error) is attributed by the RUN protocol and confirmed in a fresh process. Queries are issued only after a clean Process (API contract).",
   ref="DESIGN.md §4 C01",
   tech="deterministic simulation: simulated disk with seeded fault plan + seeded operation histories + tick/depth budget as simulated time; oracle = every call returns"),
+ "C04": dict(
+  text="State invariant monitored after every clean Process of seeded simulated executions (generated module sets in rotation over the other drivers' profiles x load order x map order x re-Process x read operations that mutate: Find creating rpc input/output on demand): proper-tree invariant walked over every module and submodule tree (filing name, parent links incl. rpc input/output, every node object reached once, kind/child-map/type/list-attribute consistency, choice members are cases, no augment left, no recorded error anywhere); a set in which the reference model finds an error-carrying construct must not come back clean. Sampling, not proof.",
+  note="For a conflict-free scenario the invariant is a pure function of the input; the simulator adds the schedule/history dimension (which colliding augment merges first, error landing after the last sweep, lazily created nodes) plus workload diversity. Trusted: the invariant walker (dump.Invariants), the reference model's notion of 'must report'.",
+  ref="DESIGN.md §4 C04",
+  tech="deterministic simulation: invariant checked after every step of seeded executions (map order, load order, re-Process, mutating reads)"),
+ "C06": dict(
+  text="Seeded exploration of grouping-heavy module sets (nested groupings, groupings in submodules/imported modules, 2+ uses of one grouping, augments and deviations aimed at single instances) under load-order x map-order executions and batch / re-Process / incremental-load histories: every tree must equal an independent reference expansion computed from the abstract scenario, un-targeted instances stay un-mutated, and no node object is shared between instances or with the cached grouping tree. Sampling, not proof.",
+  note="Trusted: the reference schema compiler (sim/harness/model/ref.go, ~800 lines over maps and slices, shares no code with goyang), the structural dump. Names are unique per scenario (shadowing is C09). refine / uses-augment excluded as in the property.",
+  ref="DESIGN.md §4 C06",
+  tech="deterministic simulation: seeded schedules and histories over generated schemas, refinement check against a small executable reference model + pointer-disjointness invariant"),
+ "C07": dict(
+  text="Seeded exploration of module sets with 1-10 augments (chains in reverse dependency order, targets from uses / submodules / choice / case / rpc input-output incl. undeclared / notification / list, augments in submodules, one optional invalid augment) under load-order x map-order executions, batch / re-Process / incremental histories and re-permuted declaration order: valid sets must be clean and equal the reference graft (exactly one copy per augment child, augmenting module's namespace on grafted subtrees, nothing else changed); invalid sets must report errors in every execution; all executions byte-equal; the retry loop terminates within the tick budget. Sampling, not proof.",
+  note="Trusted: the reference schema compiler, the structural dump. Implicit-case targets and uses-augment excluded as in the property; error oracle existential.",
+  ref="DESIGN.md §4 C07",
+  tech="deterministic simulation: seeded load order / map order / declaration order over generated augment graphs, refinement check against the reference graft"),
+ "C08": dict(
+  text="Seeded exploration of base sets plus 1-3 deviating modules (1-6 deviations, 1-3 deviate statements each, every kind and property, RFC-valid sequences like delete-then-add, one optional un-appliable deviation of the listed classes; default and ignore-not-supported options) under load-order x map-order executions: valid sets clean and equal to the reference application in written order; frame condition checked model-independently against the same modules without the deviating modules; un-appliable deviations reported in every execution; all executions byte-equal. Sampling, not proof.",
+  note="Trusted: the reference schema compiler's deviation rules (RFC 7950 7.20.3 as the property reads it), the structural dump. One deviation per node; must/unique excluded.",
+  ref="DESIGN.md §4 C08",
+  tech="deterministic simulation: seeded schedules over generated deviation sets, differential run (with vs without deviating modules) + reference application"),
+ "C11": dict(
+  text="Seeded exploration of identity graphs (diamonds, multiple bases, cross-module edges, equal names in different modules, submodule identities, optional undefined base or cycle) under load-order x map-order executions and batch / re-Process / incremental histories: each identity's value list equals the graph-theoretic closure computed from the abstract scenario (each once, never itself), the sequence is identical in every execution and history, identityref bases are the modules' own identity objects; invalid graphs are reported within the tick budget. Sampling, not proof.",
+  note="Trusted: the reference closure (model/ref.go identities()), the dump. Every generated submodule is included by its module.",
+  ref="DESIGN.md §4 C11",
+  tech="deterministic simulation: seeded load order / map order / re-Process histories over generated identity graphs, checked against a reference transitive closure"),
+ "C13": dict(
+  text="Three seeded sub-explorations: (revisions) sets of (name, revision list) texts and importers/includers loaded in all orders (<= 5 texts) or 6 seeded orders against a reference binder; (files) simulated directory trees with candidates, near-miss names and storage faults against a reference chooser written from the documented rule, the opened path observed at the simulated disk; (split) a generated module distributed over 1-4 submodules must dump structurally equal to the unsplit module under load-order x map-order executions. Sampling (orders enumerated for small sets), not proof.",
+  note="Trusted: reference binder and chooser (props/c13.go), structural dump. Open finding C13-norev (revision-less + revisioned pair) is left out of random runs and replayed from known/. dir/... entries: weak oracle as documented in DESIGN.md.",
+  ref="DESIGN.md §4 C13",
+  tech="deterministic simulation: enumerated/seeded load orders, simulated disk with near-miss names and faults observed at the disk seam, split-vs-unsplit metamorphic runs under seeded schedules"),
 }
 
 NA_PURE = {
